@@ -29,10 +29,10 @@ def n_scalers(octets):
     return sum(1 for el in root.children if len(el.children) == 3)
 
 
-def path_for(label, octets):
+def path_for(label, octets, scaler_range=(-3, 3)):
     def path(eng, ctx):
         j = eng.pick(max(1, n_scalers(octets)))
-        o = D.make_holes(eng, octets, "aidon", "frame", free_clocks=False, free_scaler=j)
+        o = D.make_holes(eng, octets, "aidon", "frame", free_clocks=False, free_scaler=j, scaler_range=scaler_range)
         D.decode_and_compare(eng, ctx, "aidon", o, "frame", label)
     return path
 
@@ -63,6 +63,10 @@ def scenarios(tier):
         out.append(Scenario(f"aidon {label}: all registers, scalers and texts free", path_for(label, o),
                             bounds={"layout": label, "elements": n, "free": "every octet of every register at once (u32, i16, u16: full range incl. sign), every text character (printable ASCII); the scaler octet of ONE element at a time free in -3..3 (each element in turn), the others as captured",
                                     "forms": "frame and bare body"}, domains=("decoders",), engine_opts={"slicing": True}, frontier=4, assumptions=A, replay_cap=60))
+    W = 16 if q else 40
+    o1 = D.fixture("aidon", "no_list_1")
+    out.append(Scenario(f"aidon no_list_1: the scaler over -{W}..{W} ('any scaler': tables, caches and shortcuts for the common exponents)", path_for("no_list_1 wide scaler", o1, (-W, W)),
+                        bounds={"layout": "no_list_1", "free": f"the register (u32) and the scaler in -{W}..{W}"}, domains=("decoders",), engine_opts={"slicing": True}, frontier=4, assumptions=A, replay_cap=60))
     base = D.fixture("aidon", "no_list_3" if not q else "no_list_2")
     out.append(Scenario(f"aidon sub-lists: every ordered selection of <= {2 if q else 3} elements of {'list 3' if not q else 'list 2'}", sublist_path(base, 2 if q else 3),
                         bounds={"selection": f"ordered, distinct, <= {2 if q else 3} elements", "free": "all holes"}, domains=("decoders",), engine_opts={"slicing": True}, frontier=3, assumptions=A, replay_cap=60))
